@@ -80,6 +80,24 @@ Definition xs_root_operation (s : schema) (o : optype) : option str :=
 Definition xs_default_root (o : optype) : str :=
   match o with OpQuery => xn_Query | OpMutation => xn_Mutation | OpSubscription => xn_Subscription end.
 
+(* A schema is closed when every type name that can type a selection set is a type of the schema: the root
+   operation types, the inner types of all field definitions, and the types of the meta-fields.
+   Schema validation guarantees it (a Valid<Schema> is closed); on a schema that is not closed
+   extend_from_ast drops fields without recording an error (FieldLookupError::NoSuchType). *)
+Definition xs_defined (s : schema) (n : str) : bool :=
+  match sch_get_type s n with Some _ => true | None => false end.
+
+Definition xs_closedb (s : schema) : bool :=
+  forallb (fun o => match xs_root_operation s o with Some ty => xs_defined s ty | None => true end)
+          [OpQuery; OpMutation; OpSubscription]
+  && xs_defined s xn_String && xs_defined s xn_Schema && xs_defined s xn_Type
+  && forallb (fun td =>
+                match td with
+                | EObject _ _ _ _ fs _ | EInterface _ _ _ _ fs _ =>
+                    forallb (fun c => xs_defined s (inner_named_type (fd_ty (c_val c)))) fs
+                | _ => true
+                end) (sch_types s).
+
 (* ---------------------------------------------------------------- BuildError (executable/mod.rs) *)
 
 Inductive xberr :=
